@@ -852,6 +852,47 @@ func randKey(r *vc.Rand, ncl int, k int) string {
 	return strconv.Itoa(k)
 }
 
+// long runs of phase-1 requests: server challenges must stay pairwise distinct however many are issued, and a response
+// recorded for an early challenge must not be accepted later (lengths around the powers of two where a pool would wrap)
+func genLong(r *vc.Rand, thorough bool, emit func(string, string)) {
+	lens := []int{63, 64, 65, 127, 128, 129, 130, 255, 256, 257, 300}
+	if thorough {
+		lens = append(lens, 383, 384, 511, 512, 513, 640, 1023, 1024, 1025, 1500, 2047, 2048, 2049)
+	}
+	for _, n := range lens {
+		for variant := 0; variant < 3; variant++ {
+			n := n + r.Intn(2)*r.Intn(4)
+			prefix := 0
+			if variant == 2 {
+				prefix = r.Intn(40)
+			}
+			var evs []string
+			for i := 0; i < prefix; i++ {
+				evs = append(evs, "hs 2 c 1 -")
+			}
+			// the observed legitimate handshake of client #0 on connection 0
+			evs = append(evs, "hs 0 c 0 -", "hs 0 c 0 h0.L0")
+			for i := 0; i < n; i++ {
+				c := 1
+				if variant >= 1 && i%3 == 2 {
+					c = 2
+				}
+				k := 0
+				if variant == 1 && i%5 == 4 {
+					k = 1
+				}
+				evs = append(evs, fmt.Sprintf("hs %d c %d -", c, k))
+				if i == n-2 || i == n-1 || i == n/2 {
+					// the recorded response replayed on the attacker's connection at several offsets
+					evs = append(evs, "hs 1 c 0 h0.L0")
+				}
+			}
+			evs = append(evs, "hs 1 c 0 -", "hs 1 c 0 h0.L0", "hs 2 c 0 h0.L0", "hs 1 c 0 -", "hs 1 c 0 h0.L1")
+			emit("seq ips 0,1,2 nc 2 rl 20 : "+strings.Join(evs, " ; "), "long-phase1-runs")
+		}
+	}
+}
+
 var tys = []string{"c", "c", "c", "c", "t", "e", "x"}
 
 func randResp(r *vc.Rand, c, nconn, ncl int, target string) string {
@@ -1035,10 +1076,12 @@ func main() {
 			genExhaustive(4, add)
 			genExhaustiveUnusable(4, add)
 			genRandom(r, 60000, add)
+			genLong(r, true, add)
 		} else {
 			genExhaustive(3, add)
 			genExhaustiveUnusable(3, add)
 			genRandom(r, 12000, add)
+			genLong(r, false, add)
 		}
 	}
 	n := *workers
